@@ -21,7 +21,7 @@ SEEDS = [
   "c10_sem_waiter_vs_post_d1", "CAUGHT", "permits not conserved at quiescence"),
  ("c11-1", "C11", "Condvar::wait_impl runs the give-up hand-shake only for Timeout, not for Canceled",
   "a coroutine waiter is cancelled while blocked on the condvar; a later (or racing) notify_one with another waiter enqueued wakes nobody",
-  "c11_condvar_cancelled_waiter_w2_vs_notify_one", "SEE-RESULT", "the C11 harnesses had no cancellation (stated outside); added a cancelled-waiter harness with a second waiter (thorough tier, ~25 min); result below"),
+  "c11_condvar_cancelled_waiter_w2_vs_notify_one", "CAUGHT-AFTER-STRENGTHENING (thorough tier)", "the C11 harnesses had no cancellation (stated outside); added a cancelled-waiter harness with a second waiter queued (thorough tier, 26 min on the unchanged tree): refutes 'a notify_one issued with a live waiter enqueued woke nobody' in 23 min"),
  ("c12-1", "C12", "RwLock::lock: re-check after set_release() removed in the Canceled arm",
   "the holder's whole hand-off lands between the cancelled waiter's is_unparked() load and its set_release() store",
   "c12_rwlock_cancelled_writer_d1", "CAUGHT-AFTER-STRENGTHENING", "the first C12 harnesses had no cancellation; added the cancelled-writer harness (park gives up with Canceled at a solver-chosen moment, holder's drop at any atomic step of the give-up hand-shake)"),
